@@ -20,15 +20,32 @@ Print Assumptions C03_predicate.
    empty request store, for every client list, whatever error VALUES the storage returns
    (operations carry storage faults with plain, typed *oidc.Error or redirect-disabled
    errors; notfound = how an unknown client is reported; requests may carry signed request
-   objects, which both routers verify and merge BEFORE validating the redirect URI): each answer is an error page, the login
+   objects, which both routers verify and merge BEFORE validating the redirect URI; every Authorize
+   / Callback may carry a write fault w: the connection fails while that answer is written): each answer is an error page, the login
    redirect, or a redirect / auto-submitting form whose target is (the canonical
-   rendering of) a URI Registered for one of the clients; never a panic. *)
+   rendering of) a URI Registered for one of the clients, or a page cut before any form; never a panic. *)
 Theorem C03_no_open_redirect :
   forall (glob : string -> string -> gres) (info : string -> uinfo) (reqobj_supported : bool)
          (notfound : errkind) (cs : list client) (ops : list op),
     Forall (safe_out glob info cs) (run glob info reqobj_supported notfound cs [] ops).
 Proof. exact run_safe_from_empty. Qed.
 Print Assumptions C03_no_open_redirect.
+
+(* Write faults are local. The answers of a history in which the connection fails while some answers
+   are written (op_cut o <> W_None) are, position by position, what `deliver` leaves of the answers
+   of the same history without any fault (op_clear): status and headers - hence every Location -
+   unchanged, an error page reduced to its status, an early-cut form_post page reduced to
+   OUndelivered. So an answer that is written without a fault equals the answer of the fault-free
+   history: nothing of an undelivered answer (another client's form, code, redirect URI) can show
+   up in a later one, and the store is the one of the fault-free history. *)
+Theorem C03_write_fault_local :
+  forall (glob : string -> string -> gres) (info : string -> uinfo) (reqobj_supported : bool)
+         (notfound : errkind) (cs : list client) (ops : list op) (st : list sreq),
+    run glob info reqobj_supported notfound cs st ops =
+    map (fun p => deliver (fst p) (snd p))
+        (combine (map op_cut ops) (run glob info reqobj_supported notfound cs st (map op_clear ops))).
+Proof. exact write_fault_local. Qed.
+Print Assumptions C03_write_fault_local.
 
 (* The same with the client pinned down: the boolean property predicate that the
    correspondence run evaluates on the implementation's answers holds of the model
